@@ -53,6 +53,8 @@ def gen_cases(rng, spec, n):
             c = kgen.gen_crash_plan(rng, i)       # already a split plan
         elif base == 'untilreact':
             c = kgen.gen_until_react(rng, i)      # already a split plan
+        elif base == 'untiljoin':
+            c = kgen.gen_until_join(rng, i)       # already a split plan
         elif base == 'store':
             c = kgen.gen_store(rng, i, malformed=malformed)
         else:
